@@ -46,14 +46,15 @@ class JaqalLexer(Lexer):
     }
 
     # Ignore whitespace, but not newlines
-    ignore = " \t"
+    ignore = " \t\r"
     NL = r"\n+"
 
     # Identifiers and numbers
-    IDENTIFIER = r"[a-zA-Z_](\.?[a-zA-Z0-9_])*"
+    # Components are joined by periods and each starts like an identifier
+    IDENTIFIER = r"[a-zA-Z_][a-zA-Z0-9_]*(\.[a-zA-Z_][a-zA-Z0-9_]*)*"
     # NUMBER comes before DOTIDENTIFIER so that .5 is a number, not a dot
     NUMBER = r"[-+]?[0-9]*\.[0-9]+([eE][-+]?[0-9]+)?"
-    DOTIDENTIFIER = r"\.([a-zA-Z_](\.?[a-zA-Z0-9_])*)?"
+    DOTIDENTIFIER = r"\.([a-zA-Z_][a-zA-Z0-9_]*(\.[a-zA-Z_][a-zA-Z0-9_]*)*)?"
     INT = r"[-+]?[0-9]+"
     BININT = r"'[0-1]+'"
 
